@@ -4,7 +4,6 @@ import (
 	"fmt"
 	"go/token"
 	"go/types"
-	"strings"
 
 	"golang.org/x/tools/go/ssa"
 
@@ -117,12 +116,16 @@ func c46(r *core.Report, p *core.Prog, thorough bool) {
 			continue
 		}
 		// unexported helper: every caller holds the lock at the call
-		ok := !fn.Object().Exported()
+		if fn.Object().Exported() {
+			r.Fail("C46.locked", "method:"+fn.String(), p.Pos(fn.Pos()), "exported method touches Buffer without `mu.Lock(); defer mu.Unlock()` first")
+			continue
+		}
+		ok := true
 		nCallers := 0
 		for _, caller := range p.ModFuncs() {
 			for _, cs := range core.CallsIn(caller, true, func(c *ssa.CallCommon) bool { return c.StaticCallee() == fn }) {
 				nCallers++
-				if !(locksFirst(caller) && caller.Params[0] == core.CallArgsAll(cs.Common())[0]) {
+				if !(locksFirst(caller) && len(cs.Common().Args) > 0 && ssa.Value(caller.Params[0]) == cs.Common().Args[0]) {
 					ok = false
 				}
 			}
@@ -320,7 +323,14 @@ func c46(r *core.Report, p *core.Prog, thorough bool) {
 				if prm := core.ParamOf(o); prm != nil && prm.Name() == "data" && path == "" {
 					return true
 				}
-				return path == ".Data" && core.ParamOf(v) == nil && strings.Contains(describe(v), "data")
+				_ = path
+				// item := Item{Round: round, Data: data}; ... item.Data
+				if sv := localFieldValue(v); sv != nil {
+					if prm := core.ParamOf(sv); prm != nil && prm.Name() == "data" {
+						return true
+					}
+				}
+				return false
 			}
 			if (isPrevData(f.X) && isNewData(f.Y)) || (isPrevData(f.Y) && isNewData(f.X)) {
 				okR = true
@@ -425,13 +435,30 @@ func c46Search(r *core.Report, p *core.Prog, fn *ssa.Function, buf *types.Var) {
 		return
 	}
 	cmp, ok := bif.Cond.(*ssa.BinOp)
-	if !ok || cmp.Op != token.LEQ || core.ParamOf(cmp.Y) == nil {
+	if !ok {
 		fail("probe comparison is not Buffer[m].Round <= key")
+		return
+	}
+	// normalise to `probe <= key` (then-branch taken when leTaken) over the four spellings
+	// probe<=key, key>=probe, probe>key, key<probe
+	var probe ssa.Value
+	leTaken := true
+	switch {
+	case cmp.Op == token.LEQ && core.ParamOf(cmp.Y) != nil:
+		probe = cmp.X
+	case cmp.Op == token.GEQ && core.ParamOf(cmp.X) != nil:
+		probe = cmp.Y
+	case cmp.Op == token.GTR && core.ParamOf(cmp.Y) != nil:
+		probe, leTaken = cmp.X, false
+	case cmp.Op == token.LSS && core.ParamOf(cmp.X) != nil:
+		probe, leTaken = cmp.Y, false
+	default:
+		fail("probe comparison is not Buffer[m].Round <= key (or its negation)")
 		return
 	}
 	// probe = Buffer[mid].Round
 	var mid ssa.Value
-	if ld, ok := cmp.X.(*ssa.UnOp); ok {
+	if ld, ok := probe.(*ssa.UnOp); ok {
 		if fa, ok := ld.X.(*ssa.FieldAddr); ok && core.FieldOf(fa) != nil && core.FieldOf(fa).Name() == "Round" {
 			if ia, ok := fa.X.(*ssa.IndexAddr); ok && loadOfField(ia.X, buf) == ssa.Value(fn.Params[0]) {
 				mid = ia.Index
@@ -442,16 +469,41 @@ func c46Search(r *core.Report, p *core.Prog, fn *ssa.Function, buf *types.Var) {
 		fail("probe is not Buffer[m].Round")
 		return
 	}
-	div, ok := mid.(*ssa.BinOp)
-	two := false
-	if ok && div.Op == token.QUO {
-		c, isC := core.ConstInt(div.Y)
-		two = isC && c == 2
+	isHalf := func(v ssa.Value) (ssa.Value, bool) {
+		bo, ok := v.(*ssa.BinOp)
+		if !ok {
+			return nil, false
+		}
+		if c, isC := core.ConstInt(bo.Y); isC && ((bo.Op == token.QUO && c == 2) || (bo.Op == token.SHR && c == 1)) {
+			return bo.X, true
+		}
+		return nil, false
 	}
-	sum, ok2 := div.X.(*ssa.BinOp)
-	if !ok || !two || !ok2 || sum.Op != token.ADD || !((sum.X == ssa.Value(left) && sum.Y == ssa.Value(right)) || (sum.X == ssa.Value(right) && sum.Y == ssa.Value(left))) {
+	okMid := false
+	if x, ok := isHalf(mid); ok {
+		// (left+right)/2
+		if sum, ok := x.(*ssa.BinOp); ok && sum.Op == token.ADD && ((sum.X == ssa.Value(left) && sum.Y == ssa.Value(right)) || (sum.X == ssa.Value(right) && sum.Y == ssa.Value(left))) {
+			okMid = true
+		}
+	} else if add, ok := mid.(*ssa.BinOp); ok && add.Op == token.ADD {
+		// left + (right-left)/2
+		a, b := add.X, add.Y
+		if b == ssa.Value(left) {
+			a, b = b, a
+		}
+		if x, ok := isHalf(b); ok && a == ssa.Value(left) {
+			if d, ok := x.(*ssa.BinOp); ok && d.Op == token.SUB && d.X == ssa.Value(right) && d.Y == ssa.Value(left) {
+				okMid = true
+			}
+		}
+	}
+	if !okMid {
 		fail("midpoint is not (left+right)/2")
 		return
+	}
+	leSucc := body.Succs[0]
+	if !leTaken {
+		leSucc = body.Succs[1]
 	}
 	// edges into the header
 	okInit, okThen, okElse := false, false, false
@@ -462,7 +514,7 @@ func c46Search(r *core.Report, p *core.Prog, fn *ssa.Function, buf *types.Var) {
 			z, isC := core.ConstInt(l)
 			lc, isL := rr.(*ssa.Call)
 			okInit = isC && z == 0 && isL && core.CalleeName(lc.Common()) == "builtin.len" && loadOfField(lc.Call.Args[0], buf) == ssa.Value(fn.Params[0])
-		case pred == body.Succs[0] || (len(pred.Preds) == 1 && pred.Preds[0] == body && body.Succs[0] == pred):
+		case pred == leSucc && len(pred.Preds) == 1 && pred.Preds[0] == body:
 			bo, ok := l.(*ssa.BinOp)
 			one := false
 			if ok && bo.Op == token.ADD && bo.X == mid {
@@ -470,9 +522,67 @@ func c46Search(r *core.Report, p *core.Prog, fn *ssa.Function, buf *types.Var) {
 				one = isC && c == 1
 			}
 			okThen = one && rr == ssa.Value(right)
-		default:
+		case len(pred.Preds) == 1 && pred.Preds[0] == body:
 			okElse = l == ssa.Value(left) && rr == mid
+		default:
+			okElse, okThen = false, false
+			fail("unexpected back edge into the loop header")
+			return
 		}
 	}
 	r.Check(okInit && okThen && okElse, "C46.search", "search:upper-bound", p.Pos(fn.Pos()), fmt.Sprintf("init(0,len)=%v; probe<=key → left=m+1=%v; else right=m=%v", okInit, okThen, okElse))
+}
+
+// localFieldValue: v is `*(&al.f)` for a non-escaping local struct al whose field f is
+// stored exactly once (and al is never stored as a whole); returns the stored value.
+func localFieldValue(v ssa.Value) ssa.Value {
+	ld, ok := v.(*ssa.UnOp)
+	if !ok || ld.Op != token.MUL {
+		return nil
+	}
+	fa, ok := ld.X.(*ssa.FieldAddr)
+	if !ok {
+		return nil
+	}
+	al, ok := fa.X.(*ssa.Alloc)
+	if !ok || al.Heap {
+		return nil
+	}
+	var val ssa.Value
+	n := 0
+	for _, ref := range *al.Referrers() {
+		switch x := ref.(type) {
+		case *ssa.FieldAddr:
+			for _, r2 := range *x.Referrers() {
+				switch y := r2.(type) {
+				case *ssa.Store:
+					if y.Addr != ssa.Value(x) {
+						return nil // field address stored somewhere
+					}
+					if x.Field == fa.Field {
+						n++
+						val = y.Val
+					}
+				case *ssa.UnOp:
+					if y.Op != token.MUL {
+						return nil
+					}
+				case *ssa.DebugRef:
+				default:
+					return nil
+				}
+			}
+		case *ssa.UnOp:
+			if x.Op != token.MUL {
+				return nil
+			}
+		case *ssa.DebugRef:
+		default:
+			return nil // whole-struct store or escape
+		}
+	}
+	if n != 1 {
+		return nil
+	}
+	return val
 }
